@@ -24,7 +24,7 @@ func checkTxUnderManagerLock(c *Ctx, rule string, names []string) {
 		}
 		key := name + ":transactions-under-manager-lock"
 		n, bad := 0, ""
-		for _, s := range txSites(f) {
+		for _, s := range txSitesBody(f) {
 			n++
 			if !holds(li, s.Call, tKMC+".mu") {
 				bad = c.Pos(s.Call.Pos()) + " "
